@@ -66,11 +66,27 @@ def reset_ids():
     protocolentity.ProtocolEntity._ProtocolEntity__ID_GEN = 0
 
 
-def scratch_root():
+def _scratch_base():
     for base in ("/dev/shm", "/tmp"):
         if os.path.isdir(base) and os.access(base, os.W_OK):
             return base
     return "/tmp"
+
+
+def scratch_root():
+    """Directory for scratch files of this run.  The runner creates one directory per run before any worker is forked
+    (VF_SCRATCH) and removes it when the run ends, so nothing is left behind even when pool workers are terminated."""
+    d = os.environ.get("VF_SCRATCH")
+    if d and os.path.isdir(d):
+        return d
+    return _scratch_base()
+
+
+def new_run_scratch():
+    import tempfile
+    d = tempfile.mkdtemp(prefix="vfrun-", dir=_scratch_base())
+    os.environ["VF_SCRATCH"] = d
+    return d
 
 
 class FakeTime(object):
